@@ -9,6 +9,7 @@ import (
 	"0chain.net/chaincore/block"
 	cstate "0chain.net/chaincore/chain/state"
 	"0chain.net/chaincore/node"
+	"0chain.net/chaincore/threshold/bls"
 	"0chain.net/chaincore/transaction"
 	"0chain.net/core/common"
 	"github.com/0chain/common/core/logging"
@@ -618,9 +619,17 @@ func (msc *MinerSmartContract) contributeMpk(t *transaction.Transaction,
 			"decoding request: %v", err)
 	}
 
+	// the key is the sender's own, whatever id the input names
+	mpk.ID = t.ClientID
+
 	if len(mpk.Mpk) != dmn.T {
 		return "", common.NewErrorf("contribute_mpk_failed",
 			"mpk sent (size: %v) is not correct size: %v", len(mpk.Mpk), dmn.T)
+	}
+
+	if _, err := bls.ConvertStringToMpk(mpk.Mpk); err != nil {
+		return "", common.NewErrorf("contribute_mpk_failed",
+			"mpk sent is not a list of public keys: %v", err)
 	}
 
 	mpks, err := getMinersMPKs(balances)
